@@ -102,6 +102,10 @@ impl Monitor for C20 {
     }
     fn run_case(&self, _stream: usize, _idx: u64, rng: &mut Rng, ctx: &mut Ctx) {
         let mut doc = gen_doc(rng);
+        // one document in twelve has a carriage return inside a comment or PI body (kept verbatim by every route)
+        if rng.chance(1, 12) && inject_cr(&mut doc, rng) {
+            ctx.count("documents_with_cr_in_comment_or_pi");
+        }
         // one document in ten holds EMPTY text nodes (next to no other text): XML cannot spell them, so only the
         // fixed:: and the stepwise realisations are compared for it
         let mut unparsable = false;
